@@ -40,11 +40,11 @@ def run(tier, seed, t0):
     cov = {
         "states": meta["distinct"] + r.distinct, "transitions": meta["generated"] + r.generated,
         "traces_validated_against_impl": 1, "evaluations": summ["parses"], "distinct_nontrivial": len(events),
-        "rule": "the Gen_Doc universe in mode c08 (the 30 core documents plus 18 with out-of-range coordinates in points, lines, holes, "
+        "rule": "the Gen_Doc universe in mode c08 (the core documents of C07 plus 21 with out-of-range coordinates in points, lines, holes, "
                 "Multi*, nested collections and Features, the Circle convention in m/km/3D/nested form, perfect rectangles with and "
-                "without members; every single structural mutation of each): every document is parsed under %d option sets (7 index "
+                "without members, collections with empty children; every single structural mutation of each; five large never-mutated documents - a 330-point line, 200-segment polygons, 70-feature and 66-geometry collections - that reach the segment and child indexes): every document is parsed under %d option sets (7 index "
                 "configurations, 3 representation options, 2 RequireValid sets) and one trace event per document carries the "
-                "observations (accepted, JSON, Rect/Empty/Valid/NumPoints, 56 predicate answers against 9 probe objects incl. a Circle, "
+                "observations (accepted, JSON, Rect/Empty/Valid/NumPoints, predicate answers against probe objects incl. a Circle and, for large documents, a point on every segment, "
                 "Circle recognition); Trace_C08 checks OptionsSpec!Transparent, whose RequireValid clause uses the L1 validity of the "
                 "document (ValidDoc). distinct_nontrivial = distinct documents" % summ["option_sets"],
         "samples": [{"text": events[len(events) // 2]["text"], "runs": [{k: rr[k] for k in ("name", "class", "accepted", "circle")} for rr in events[len(events) // 2]["runs"]]}],
